@@ -4,9 +4,9 @@
 //!   vh exec <prop>                < requests    > replies    (real implementation, in-process)
 //!
 //! Requests are self-contained, so a replay file is just a request line.
-mod util;
-mod rxgen;
-mod c09;
+pub mod util;
+pub mod rxgen;
+pub mod tgen;
 
 use std::io::{BufRead, Write};
 
@@ -28,12 +28,7 @@ impl GenCtx {
 type GenFn = fn(&mut GenCtx);
 type ExecFn = fn(&str) -> String;
 
-fn table(prop: &str) -> Option<(GenFn, ExecFn)> {
-    Some(match prop {
-        "C09" => (c09::generate, c09::exec),
-        _ => return None,
-    })
-}
+include!(concat!(env!("OUT_DIR"), "/registry.rs"));
 
 fn main() {
     let args: Vec<String> = std::env::args().collect();
